@@ -428,7 +428,7 @@ pub fn run(cfg: &Cfg, rep: &mut Rep) {
             }
         }
     }
-    let nrand = cfg.budget(200_000);
+    let nrand = cfg.budget(300_000);
     for k in 0..nrand {
         let si = if k % 2 == 0 { 4 } else { r.below(9) as usize };
         let s = SCALES[si];
